@@ -706,7 +706,7 @@ pub fn gen_array_scenario(prop: Prop, rng: &mut Rng, tier: Tier) -> Scenario {
                                     let many = rng.chance(1, 2);
                                     let mut op = new_op(rng, if many { "select_many" } else { "select" });
                                     op.lane = lane;
-                                    let cnt = if many { rng.below(n.min(8) + 2) } else { 1 };
+                                    let cnt = if many { if rng.chance(1, 5) { list_len(rng, n) } else { rng.below(n.min(8) + 2) } } else { 1 };
                                     op.idx = (0..cnt).map(|_| rng.below(n) as u64).collect();
                                     op.storage = pick_storage(rng);
                                     op.form = rng.below(5) as u8;
@@ -715,7 +715,7 @@ pub fn gen_array_scenario(prop: Prop, rng: &mut Rng, tier: Tier) -> Scenario {
                             }
                         }
                         _ => {
-                            if let Some(op) = q_ops(rng, &shape, ty, style, 6, false) {
+                            if let Some(op) = q_ops(rng, &shape, ty, style, if thorough { 32 } else { 12 }, false) {
                                 scn.ops.push(op);
                             }
                         }
